@@ -7,6 +7,7 @@ import (
 	"flag"
 	"fmt"
 	"os"
+	"os/exec"
 	"path/filepath"
 	"sort"
 	"strconv"
@@ -41,6 +42,119 @@ type Run struct {
 	assume    []string
 	extra     map[string]any
 	inconcl   []string
+	// sharding (see Shard): parent of child processes / child number shardI of shardK
+	parent bool
+}
+
+var shardI, shardK = 0, 1
+
+func init() {
+	if v := os.Getenv("VERIF_SHARD"); v != "" {
+		var i, k int
+		if _, err := fmt.Sscanf(v, "%d/%d", &i, &k); err == nil && k > 1 && i >= 0 && i < k {
+			shardI, shardK = i, k
+		}
+	}
+}
+
+type shardOut struct {
+	Counters map[string]int64 `json:"counters"`
+	Distinct []string         `json:"distinct"`
+	Samples  []any            `json:"samples"`
+	Evals    int64            `json:"evals"`
+	Viol     []violation      `json:"viol"`
+	Inconcl  []string         `json:"inconcl"`
+	Extra    map[string]any   `json:"extra"`
+	NotWrit  int64            `json:"not_written"`
+}
+
+// Shard splits the cases that are driven through ParallelCases over k child processes run one after the
+// other (each world leaks about a dozen memory mappings inside the Wasm engine, so one process cannot host
+// more than ~5000 of them). The parent runs no case itself: it merges what the children observed and judges
+// coverage guards and the verdict. A child that dies makes the parent exit with 2 (process died). Only the
+// thorough tier is sharded; replays never are.
+func (r *Run) Shard(k int) {
+	if k < 2 || (!r.Thorough() && os.Getenv("VERIF_FORCE_SHARD") == "") || r.Replay != "" || os.Getenv("VERIF_SHARD") != "" {
+		return
+	}
+	r.parent = true
+	parentMode = true
+	exe, err := os.Executable()
+	if err != nil {
+		r.Inconclusive("cannot locate own executable: " + err.Error())
+		return
+	}
+	for i := 0; i < k; i++ {
+		f, err := os.CreateTemp("", "verif-shard-*.json")
+		if err != nil {
+			r.Inconclusive("shard file: " + err.Error())
+			return
+		}
+		out := f.Name()
+		f.Close()
+		os.Remove(out)
+		cmd := exec.Command(exe, os.Args[1:]...)
+		cmd.Env = append(os.Environ(), fmt.Sprintf("VERIF_SHARD=%d/%d", i, k), "VERIF_SHARD_OUT="+out, "VERIF_TIER="+r.Tier, fmt.Sprintf("VERIF_SEED=%d", r.Seed))
+		cmd.Stdout, cmd.Stderr = os.Stdout, os.Stderr
+		rerr := cmd.Run()
+		bz, ferr := os.ReadFile(out)
+		os.Remove(out)
+		if ferr != nil {
+			fmt.Printf("INCONCLUSIVE property=%s shard %d/%d died (%v) before reporting\n", r.Prop, i, k, rerr)
+			os.Exit(2)
+		}
+		var so shardOut
+		if err := json.Unmarshal(bz, &so); err != nil {
+			r.Inconclusive(fmt.Sprintf("shard %d/%d: unreadable report: %v", i, k, err))
+			continue
+		}
+		r.mu.Lock()
+		for n, v := range so.Counters {
+			r.counters[n] += v
+		}
+		for _, d := range so.Distinct {
+			if raw, err := hex.DecodeString(d); err == nil {
+				r.distinct[string(raw)] = struct{}{}
+			}
+		}
+		for _, s := range so.Samples {
+			if len(r.samples) < r.maxSample {
+				r.samples = append(r.samples, s)
+			}
+		}
+		r.evals += so.Evals
+		r.viol = append(r.viol, so.Viol...)
+		r.inconcl = append(r.inconcl, so.Inconcl...)
+		for n, v := range so.Extra {
+			r.extra[n] = v
+		}
+		r.mu.Unlock()
+		fmt.Printf("[%s shard %d/%d] merged: evaluations=%d violations=%d\n", r.Prop, i, k, so.Evals, len(so.Viol))
+	}
+	r.mu.Lock()
+	r.extra["processes"] = k
+	r.mu.Unlock()
+}
+
+// Once is true where work that is not split over shards has to run: in an unsharded process and in shard 0.
+func (r *Run) Once() bool { return !r.parent && shardI == 0 }
+
+var parentMode bool
+
+// ParallelCases is Parallel over the case indexes that belong to this process (all of them unless sharded).
+func ParallelCases(n, workers int, fn func(i int)) {
+	if parentMode {
+		return
+	}
+	if shardK == 1 {
+		Parallel(n, workers, fn)
+		return
+	}
+	var idx []int
+	for i := shardI; i < n; i += shardK {
+		idx = append(idx, i)
+	}
+	Parallel(len(idx), workers, func(j int) { fn(idx[j]) })
 }
 
 type violation struct {
@@ -215,6 +329,24 @@ func (r *Run) Violations() int { r.mu.Lock(); defer r.mu.Unlock(); return len(r.
 
 // Finish writes the evidence file and exits with the verdict's code.
 func (r *Run) Finish() {
+	if out := os.Getenv("VERIF_SHARD_OUT"); out != "" && shardK > 1 {
+		r.mu.Lock()
+		so := shardOut{Counters: r.counters, Samples: r.samples, Evals: r.evals, Viol: r.viol, Inconcl: r.inconcl, Extra: r.extra}
+		for d := range r.distinct {
+			so.Distinct = append(so.Distinct, hex.EncodeToString([]byte(d)))
+		}
+		bz, err := json.Marshal(so)
+		r.mu.Unlock()
+		if err != nil {
+			fmt.Println("shard report:", err)
+			os.Exit(3)
+		}
+		if err := os.WriteFile(out, bz, 0o644); err != nil {
+			fmt.Println("shard report:", err)
+			os.Exit(3)
+		}
+		os.Exit(0)
+	}
 	r.mu.Lock()
 	for _, q := range r.required {
 		if r.Replay != "" {
